@@ -227,6 +227,18 @@ def check(repo: Repo, run: Run) -> None:
     first_yield = min((r.seq for r in yields), default=None)
     ok = len(stm) == 1 and stm[0].args == (T("attr", (hp, "threadmap")),) and not stm[0].pc and not stm[0].loops \
         and (first_yield is None or stm[0].seq < first_yield)
+    if not ok and len(stm) == 2 and all(len(c.pc) == 1 and not c.loops and (first_yield is None or c.seq < first_yield) for c in stm) \
+            and tm is not None and tm.kind == "Array" and tm.info.get("count_field") == first.name:
+        # `if header.count: set_thread_map(header.threadmap) else: set_thread_map(())`: with a count of zero the Array IS empty
+        (c1, p1), (c2, p2) = stm[0].pc[0], stm[1].pc[0]
+        a1, q1 = render.norm_bool(c1)
+        a2, q2 = render.norm_bool(c2)
+        count = T("attr", (hp, first.name))
+        if a1 == a2 == count and (p1 if q1 else not p1) != (p2 if q2 else not p2):
+            full, none = (stm[0], stm[1]) if (p1 if q1 else not p1) else (stm[1], stm[0])
+            empty = len(none.args) == 1 and ((none.args[0].op in ("tuple", "list") and not none.args[0].a[0]) or
+                                             none.args[0] in (const(()), const(""), T("attr", (hp, "threadmap"))))
+            ok = full.args == (T("attr", (hp, "threadmap")),) and empty
     run.ob("R4", MOD, "KdBufParser.parse_v2", "set_thread_map(parsed header's thread map) before the first yield", ok,
            "parse_v2 does not call set_thread_map with kd_header_v2.parse_stream(reader).threadmap unconditionally before "
            "yielding events", facts={"calls": [sym.pretty(c.args[0])[:80] if c.args else None for c in stm]}, line=fn.lineno)
